@@ -72,7 +72,12 @@ func c14Resolve(g *graphgen.Graph, root model.Val, segs []string) (v model.Val, 
 }
 
 func (c14) RunCase(c *fw.Ctx, rng *fw.RNG, batch, i int) {
-	g, root, s, sel, err := travSetup(rng, graphgen.Opts{MaxBlocks: 8, MaxDepth: 3, MaxWidth: 4, RawBlocks: true, OddKeys: true, NumLookalikes: true, Missing: 1}, selgen.Opts{MaxDepth: 4, NoSubset: true})
+	gopts := graphgen.Opts{MaxBlocks: 8, MaxDepth: 3, MaxWidth: 4, RawBlocks: true, OddKeys: true, NumLookalikes: true, Missing: 1}
+	sopts := selgen.Opts{MaxDepth: 4, NoSubset: true}
+	if deepCase(c, i) {
+		gopts.MaxBlocks, gopts.MaxDepth, gopts.MaxWidth, sopts.MaxDepth = 14, 4, 6, 6
+	}
+	g, root, s, sel, err := travSetup(rng, gopts, sopts)
 	if err != nil || root == nil {
 		c.Seen(0, false)
 		return
